@@ -1,6 +1,8 @@
 //! C05 (FRI soundness: adversary enumeration against a reference verifier) and
 //! C15 (FRI completeness and the folding identity).
 mod c15;
+#[path = "../../stark/src/c04_fri.rs"]
+mod fri_binding;
 mod model;
 
 use std::sync::Arc;
@@ -291,7 +293,7 @@ fn main() {
     match args.prop.clone().as_str() {
         "C05" => {
             let run = Run::new(args, "exploration");
-            run.rule("stand-alone FRI: configurations (domain 16,32 quick / 16..128 thorough) x folding {2,4,8,16} x blowup {2,4,8} x remainder degree {0,1,3,7} with a well-formed schedule; functions: every monomial above the degree bound, the bound itself, a low-degree polynomial corrupted at every single point / on a lattice of pairs / on half the domain, a seeded random function; adversary strategies: honest, full remainder, remainder interpolated after seeing the queries, tampered opened value per layer, first-layer rows forged after seeing the queries (other values at the queried positions, an un-queried member of each row adjusted to keep the fold) under declared partition counts {1,2,2^62,2^63}, tampered committed value per layer, wrong folding challenge per layer, omitted / duplicated / swapped layers; positions: ALL position lists of size 1 and 2 (all subsets; a third of the pairs for n = 128) plus lists with repeats; functions and pairs are complete up to n = 32 (quick) / n = 64 (thorough, pair lattice of corruptions coarser above 32) and thinned as stated for the largest domain; largest domain per (field, hasher) instance: 32/16/16 quick, 128/32/64/16/16 thorough; for every (function, strategy, positions) the real FriVerifier must answer Ok exactly when the reference verifier written from the protocol description accepts; a case = (configuration, function, strategy), non-trivial position sets counted individually; the honest strategy's proof is compared byte for byte with the real FriProver's (trace conformance of the prover model)");
+            run.rule("stand-alone FRI: configurations (domain 16,32 quick / 16..128 thorough) x folding {2,4,8,16} x blowup {2,4,8} x remainder degree {0,1,3,7} with a well-formed schedule; functions: every monomial above the degree bound, the bound itself, a low-degree polynomial corrupted at every single point / on a lattice of pairs / on half the domain, a seeded random function; adversary strategies: honest, full remainder, remainder interpolated after seeing the queries, tampered opened value per layer, first-layer rows forged after seeing the queries (other values at the queried positions, an un-queried member of each row adjusted to keep the fold) under declared partition counts {1,2,2^62,2^63}, tampered committed value per layer, wrong folding challenge per layer, omitted / duplicated / swapped layers; positions: ALL position lists of size 1 and 2 (all subsets; a third of the pairs for n = 128) plus lists with repeats; functions and pairs are complete up to n = 32 (quick) / n = 64 (thorough, pair lattice of corruptions coarser above 32) and thinned as stated for the largest domain; largest domain per (field, hasher) instance: 32/16/16 quick, 128/32/64/16/16 thorough; for every (function, strategy, positions) the real FriVerifier must answer Ok exactly when the reference verifier written from the protocol description accepts; a case = (configuration, function, strategy), non-trivial position sets counted individually; binding of the transcript: for every well-formed schedule the real prover's proof is verified with each commitment replaced (must refuse) and the coin after FriVerifier::new must depend on every commitment the verifier accepted, also when the proof carries one layer and one commitment more than the options define; the honest strategy's proof is compared byte for byte with the real FriProver's (trace conformance of the prover model)");
             run.assume("the public coin and the hashers are correct (C19, C11); Merkle openings are sound (C10); the reference verifier sees the adversary's committed layers, so 'authentic opening' is decided by equality with the committed rows");
             let mut subs = vec![];
             let quick = !run.tier().is_thorough();
@@ -299,7 +301,13 @@ fn main() {
             subs.extend(c05_subs::<B64, hashers::Blake3_256<B64>>(&run, "blake3_256", if quick { 32 } else { 128 }));
             subs.extend(c05_subs::<QuadExtension<B64>, hashers::Blake3_256<B64>>(&run, "blake3_256", if quick { 16 } else { 32 }));
             subs.extend(c05_subs::<B128, hashers::Sha3_256<B128>>(&run, "sha3_256", if quick { 16 } else { 64 }));
+            // the remainder (and every layer) is the one committed to before the positions are drawn: commitments handed to
+            // the real verifier replaced one at a time, and the coin a caller draws the positions from must have absorbed
+            // every commitment the verifier accepted - also a surplus one (shared with C04's FRI-level step)
+            subs.extend(fri_binding::subs::<B128, hashers::Sha3_256<B128>>(&run, "sha3_256"));
+            subs.extend(fri_binding::subs::<QuadExtension<B64>, hashers::Blake3_256<B64>>(&run, "blake3_256"));
             if !quick {
+                subs.extend(fri_binding::subs::<CubeExtension<B62>, hashers::Blake3_192<B62>>(&run, "blake3_192"));
                 subs.extend(c05_subs::<CubeExtension<B62>, hashers::Blake3_192<B62>>(&run, "blake3_192", 16));
                 subs.extend(c05_subs::<B62, hashers::Rp62_248>(&run, "rp62_248", 16));
             }
